@@ -145,6 +145,13 @@ def resolvers_oracle(z, l, ldt, exp):
         if zdt.offset.seconds != off or zdt.zone is not z or zdt.calendar != ldt.calendar:
             return {"key": "resolver-result-out-of-step", "what": f"{z.id} local {l}: {name} returned offset {zdt.offset.seconds} "
                     f"(zone offset at its instant: {off}), zone/calendar kept: {zdt.zone is z}/{zdt.calendar == ldt.calendar}"}
+        # the local date-time the result shows must be its instant plus its offset, normalised: day and time of day
+        loc = t + off * NPS
+        ld = zdt.local_date_time
+        shown = (ld.date._days_since_epoch, ld.nanosecond_of_day)
+        if shown != (loc // NPD, loc % NPD):
+            return {"key": "resolver-result-local-not-normalised", "what": f"{z.id} local {l}: {name} returned instant {t} offset {off}s, whose local "
+                    f"date-time is day {loc // NPD} + {loc % NPD} ns, but the result shows day {shown[0]} + {shown[1]} ns (hour {ld.hour})"}
         return None
 
     def want_err(name, got, err):
@@ -397,6 +404,17 @@ def _explore(ctx, keys):
         for d in (-1, 0, 1):
             ls.add(((tr + w1 * NPS) // NPD + d) * NPD)
         pick = rng.sample(sorted(ls), min(len(ls), 8 if not ctx.thorough else len(ls)))
+        if w1 > w0:
+            # skipped local values whose forward-shifted result is exactly a local midnight (day carry at the boundary)
+            gap = (w1 - w0) * NPS
+            m0 = -((-(tr + w1 * NPS)) // NPD) * NPD          # first local midnight >= local start of the later interval
+            while m0 < tr + w1 * NPS + gap:
+                if m0 - gap not in pick:
+                    pick.append(m0 - gap)
+                for d in (-1, 1):
+                    if lo <= m0 - gap + d < hi:
+                        pick.append(m0 - gap + d)
+                m0 += NPD
         for l in pick:
             if MINI + H18 <= l <= MAXI - H18:
                 cal = rng.choice([0, 0, 0, 1, 2, 3])
